@@ -1,7 +1,11 @@
 Require Import FastZ.
-From Dashu Require Import Base.Prelude Float.RoundSpec Float.Contract Float.Model Float.AddModel Float.DivMulModel.
+From Dashu Require Import Base.Prelude Float.RoundSpec Float.Contract Float.Model Float.AddModel Float.DivMulModel Float.LongModel.
 Extraction "model.ml" check_contract dlen x_exp cmp_kx spec_round round_rat_at
   repr_round ctx_mul ctx_sqr ctx_cubic repr_div round_fract round_ratio
   ctx_add_x ctx_sub_x ctx_add_x1 ctx_sub_x1 add_val_val_x add_val_ref_x add_ref_val_x add_ref_ref_x ctx_sqrt add_path approx_val
   ctx_div_x ctx_div_x1 ctx_inv fbig_mul fbig_div mul_float_prim mul_prim_float div_float_prim div_prim_float
-  prim_prec ctx_max round_fract_sharp.
+  prim_prec ctx_max round_fract_sharp
+  add_short_class mul_long_class sqr_long_class cubic_long_class div_long_class ctx_sub_fixed_x ctx_sub_fixed_x1
+  repr_rem rem_exact fbig_rem fbig_div_euclid fbig_rem_euclid fbig_div_rem_euclid
+  fbig_sqr fbig_cubic fbig_sqrt fbig_inv add_float_prim_vv_x add_float_prim_rv_x add_prim_float_vv_x add_prim_float_vr_x
+  is_normal ctx_add_n_x ctx_sub_n_x ctx_mul_n ctx_sqr_n ctx_cubic_n ctx_div_n_x ctx_inv_n ctx_sqrt_n repr_rem_n sqrt_round_frac.
